@@ -20,9 +20,12 @@ def groups(L, which=None, action="{ }", long_inputs=False):
         "fixtrail": [(R.plus(A), B), (A,), (B,), (NL,)],
         "vartrail": [(R.plus(A), R.cat(R.plus(B), NL)), (A,), (B,), (NL,)],
         "bol": [(R.plus(A), "bol"), (A,), (B,), (NL,), (B, A, "bol")],
+        # a NUL byte as ordinary input: the end-of-buffer sentinel is a NUL too, so a NUL that is the last byte of a read must not be
+        # taken for it (round-2 seed C03-r2m1)
+        "nul": [(R.cat(A, R.lit(0), B),), (R.lit(0),), (A,), (B,)],
     }
     out = []
-    for name in (which or ["backup", "lines", "fixtrail", "bol"]):
+    for name in (which or ["backup", "lines", "fixtrail", "bol", "nul"]):
         rs = defs[name]
         rules = []
         for r in rs:
@@ -31,7 +34,7 @@ def groups(L, which=None, action="{ }", long_inputs=False):
         extras = []
         if long_inputs:
             extras = [b"a" * 41 + b"\n", b"ab" * 20 + b"b\n" + b"abbba", b"b" * 17 + b"a" * 23 + b"b\n\n" + b"a" * 9]
-        out.append(H.Group([(name.upper(), True)], rules, name.upper(), ALPHA, L, extras, label=name))
+        out.append(H.Group([(name.upper(), True)], rules, name.upper(), b"ab\0" if name == "nul" else ALPHA, L, extras, label=name))
     return out
 
 
@@ -40,6 +43,7 @@ def jobs_for(tier):
     L = 5 if quick else 8
     allcomp = {"VF_READ_CHOICES": 8, "VF_FREE_READ": 1, "VF_BUDGET_READ": 99, "VF_BUDGET_DEFAULT": 0, "VF_BUDGET_TOTAL": 0}
     sizes = "0,1,2,3,4,5,8"
+    FIT = 8 if L <= 6 else 16      # REJECT / variable-trailing-context scanners cannot grow their buffer: sizes every token of length <= L fits in
     jobs = []
 
     def J(tag, gs, knobs, **kw):
@@ -69,9 +73,9 @@ def jobs_for(tier):
     J("F-NR-ops", groups(L - 1, ["backup", "lines", "fixtrail"], action=H.ops_action(nrops, "NR")),
       dict(allcomp, VF_BUFSIZES="0,1,2,3", VF_OPMASK=H.opmask(*nrops), VF_BUDGET_OP=1, VF_BUDGET_TOTAL=1))
     # variable trailing context uses the REJECT machinery: the buffer cannot grow, so only buffers the tokens fit in
-    J("A-vartrail", groups(L, ["vartrail"]), dict(allcomp, VF_BUFSIZES="0,8,16"))
-    J("C-vartrail", groups(L, ["vartrail"]), {"VF_READ_ONE": 1, "VF_CHECK_OVERREAD": 1, "VF_BUFSIZES": "0,8"}, flex_args=["-I"])
-    J("D-vartrail", groups(L, ["vartrail"]), dict(allcomp, VF_BUFSIZES="0,8"), cdefs=["VF_DEFAULT_INPUT=1"])
+    J("A-vartrail", groups(L, ["vartrail"]), dict(allcomp, VF_BUFSIZES="0,%d,%d" % (FIT, 2 * FIT)))
+    J("C-vartrail", groups(L, ["vartrail"]), {"VF_READ_ONE": 1, "VF_CHECK_OVERREAD": 1, "VF_BUFSIZES": "0,%d" % FIT}, flex_args=["-I"])
+    J("D-vartrail", groups(L, ["vartrail"]), dict(allcomp, VF_BUFSIZES="0,%d" % FIT), cdefs=["VF_DEFAULT_INPUT=1"])
     J("E-vartrail", groups(L, ["vartrail"]), {}, cdefs=["VF_SOURCE_SCAN=1"])
     # B. tokens several times longer than the buffer: <= 2 departures from "all at once", and one byte at a time
     for fa in ([], ["-Cf"]):
@@ -90,13 +94,14 @@ def jobs_for(tier):
     J("D-1-R", groups(L - 1), dict(allcomp, VF_BUFSIZES="0,2"), cdefs=["VF_DEFAULT_INPUT=1"], api="R", options=["reentrant"])
     # E. in-memory sources
     for src in (1, 2, 3):
-        J("E-%d" % src, groups(L), {}, cdefs=["VF_SOURCE_SCAN=%d" % src])
-        J("E-%d-R" % src, groups(L), {}, cdefs=["VF_SOURCE_SCAN=%d" % src], api="R", options=["reentrant"])
+        gsel = ["backup", "lines", "fixtrail", "bol"] if src == 2 else None      # yy_scan_string cannot carry a NUL
+        J("E-%d" % src, groups(L, gsel), {}, cdefs=["VF_SOURCE_SCAN=%d" % src])
+        J("E-%d-R" % src, groups(L, gsel), {}, cdefs=["VF_SOURCE_SCAN=%d" % src], api="R", options=["reentrant"])
         J("E-%d-Cf" % src, groups(L, ["backup", "lines", "fixtrail", "bol"]), {}, cdefs=["VF_SOURCE_SCAN=%d" % src], flex_args=["-Cf"])
     # F. REJECT scanners (tokens that fit: the buffer cannot grow) and yymore across refills
     rej = H.ops_action([H.OP_REJECT])
     J("F-reject", groups(L - 1, ["backup", "fixtrail"], action=rej),
-      dict(allcomp, VF_BUFSIZES="0,8", VF_OPMASK=H.opmask(H.OP_REJECT), VF_BUDGET_OP=1, VF_BUDGET_TOTAL=1))
+      dict(allcomp, VF_BUFSIZES="0,%d" % FIT, VF_OPMASK=H.opmask(H.OP_REJECT), VF_BUDGET_OP=1, VF_BUDGET_TOTAL=1))
     more = H.ops_action([H.OP_MORE])
     for arr in (0, 1):
         J("F-more-%d" % arr, groups(L - 1, ["backup", "lines", "fixtrail"], action=more),
@@ -132,7 +137,9 @@ def run(tier):
             ck.exhaustive = False
             ck.notes.append("choice-vector cap hit in " + job["tag"])
         for v in res["viols"]:
-            ck.violation("C03:%s:%s:%s" % (job["tag"], v["label"], v.get("what", v.get("msg", v["viol"]))),
+            what_ = v.get("what", v.get("msg", v["viol"]))
+            ck.violation(("C03:overread:%s:%s" % (v["label"], job["tag"])) if "beyond the end of the longest possible match" in str(what_) else
+                         "C03:%s:%s:%s" % (job["tag"], v["label"], what_),
                          "%s/%s: input %s bufsize %s read choices %s: %s (expected rule %s len %s, observed rule %s len %s)" % (
                              job["tag"], v["label"], v.get("input"), v.get("bufsize"), v.get("choices"), v.get("what", v.get("msg")),
                              v.get("exp_rule"), v.get("exp_len"), v.get("obs_rule"), v.get("obs_len")),
